@@ -568,7 +568,7 @@ func (c *c11Case) buildInput() *logical.LogInput {
 			TokenPolicies: []string{"default", "dev"}, Metadata: map[string]string{"username": "alice"}, EntityID: "0f1e2d3c-aaaa-bbbb-cccc-112233445566",
 			TokenType: logical.TokenTypeService, LeaseOptions: logical.LeaseOptions{TTL: time.Hour, Renewable: true, IssueTime: time.Unix(1700000000, 0).UTC()},
 			PolicyResults: &logical.PolicyResults{Allowed: true, GrantingPolicies: []logical.PolicyInfo{{Name: "dev", NamespaceId: "root", Type: "acl"}}},
-			InternalData: map[string]any{"note": "not emitted"},
+			InternalData:  map[string]any{"note": "not emitted"},
 		}
 	}
 	if c.hasResp {
